@@ -231,7 +231,9 @@ def real_case(case):
         else:
             return {"v": [], "stats": {"evals": 0}}
     model = M.make(name, _route="ctor" if restore else "used_set_params", **kw)
-    Xfit = {"float64": X, "list": X.tolist(), "float32": X.astype(np.float32), "fortran": np.asfortranarray(X)}[form]
+    Xro = X.copy()
+    Xro.setflags(write=False)
+    Xfit = {"float64": X, "list": X.tolist(), "float32": X.astype(np.float32), "fortran": np.asfortranarray(X), "readonly": Xro}[form]
     pk = dict(alpha_multiplier=mult, min_features=minf, keep_threshold=keep, restore_best_weights=restore, max_patience=2)
     where = dict(harness="real", model=name, gemini=gemini, alpha=alpha, alpha_multiplier=mult, min_features=minf, keep_threshold=keep,
                  batch_size=bs, dynamic=bool(kw.get("dynamic", False)), y_given=pre, restore_best_weights=restore, input_form=form)
@@ -289,7 +291,7 @@ def explorers(tier, seed):
                                                     cB.append((name, gemini, alpha, mult, minf, keep, bs, dynamic, pre, restore, data_id, seed))
     for name in M.SPARSE:
         g = "mi" if name == "SparseLinearMI" else "mmd_ova"
-        for form in ("list", "float32", "fortran", "groups_partial", "groups_full"):
+        for form in ("list", "float32", "fortran", "readonly", "groups_partial", "groups_full"):
             cB.append((name, g, 0.2, 2.0, 1, 0.9, None, False, False, True, form, seed))
     return [
         Explorer("scripted_environment", "props.c07", "scripted_case", cA, kind="choices", chunk=1, floor=100, case_timeout=1200,
